@@ -35,7 +35,7 @@ def c03(tier):
 
 
 def c03_all(tier):
-    return c03(tier) + s2_errors(3, tier) + fam_mut(3, tier) + corpus(3)
+    return c03(tier) + s2_errors(3, tier) + fam(3, tier, cut=False) + fam_mut(3, tier) + corpus(3)
 
 
 def c15(tier):
@@ -173,7 +173,9 @@ def c16(tier):
 
 def c06(tier):
     q = tier == "quick"
-    runs = fam(6, tier, budget=1 if q else 2)
+    runs = fam(6, tier, budget=2 if q else 3)
+    for r in runs:
+        r["budget"] = 50000000   # two extra parses per node: raise the unwinding budget accordingly
     if q:
         runs.append(s2(6, 0, 0, 2, EXPR, True))
     else:
@@ -322,8 +324,8 @@ PROPS = {
                         "thorough": "S1 <= 3; S2 one slot more; families with <= 3 deviations, lists <= 3"},
                 outside="inputs outside the bounds; the expected token sequence is the real lexer's token stream of the input (C13/C14 check the lexer)"),
     "C06": dict(level="model_checking", runs=cutpanics(c06), reach=["C06/accepted"],
-                bounds={"quick": "23 sentence families with <= 1 deviation (every node of every sentence: own-text re-parse and SQL() splice); S2: 2 expression slots",
-                        "thorough": "families with <= 2 deviations; S2 operand x operator matrix and 3 expression slots"},
+                bounds={"quick": "23 sentence families with <= 2 deviations (every node of every sentence: own-text re-parse and SQL() splice); S2: 2 expression slots; the corpus",
+                        "thorough": "families with <= 3 deviations; S2 operand x operator matrix and 3 expression slots; the corpus"},
                 outside="sentences outside the families; node kinds that occur in no explored sentence"),
     "C16": dict(level="model_checking", runs=cutpanics(c16), reach=["C16/ok"],
                 bounds={"quick": "23 sentence families (<= 1 deviation): one gap at a symbolic token position carrying one of 9 trivia forms; one keyword / pseudo-keyword occurrence at a symbolic position re-cased lower / alternating / symbolic case of its first 3 letters",
